@@ -31,7 +31,7 @@ func GenRandom(out string, seed int64, nspz, nclouds, maxn int) error {
 			n = i // always 0, 1, 2, 3
 		}
 		deg := rng.Intn(4)
-		fb := rng.Intn(31)
+		fb := rng.Intn(256) // the whole declared range of the 8 bit field
 		psz := 3
 		if version == 1 {
 			psz = 2
@@ -42,7 +42,8 @@ func GenRandom(out string, seed int64, nspz, nclouds, maxn int) error {
 			pay[b] = rng.Intn(256)
 		}
 		c := Case{Id: id, Kind: "spz", Hdr: []int{version, n, deg, fb}, Pay: pay,
-			Frame: []string{"stored", "deflate"}[rng.Intn(2)], Blk: []int{0, 11, 300}[rng.Intn(3)]}
+			Frame: []string{"stored", "deflate"}[rng.Intn(2)], Blk: []int{0, 11, 300}[rng.Intn(3)],
+			Dl: []int{0, 0, 1, 5, 64, 100003}[rng.Intn(6)]}
 		id++
 		if err := enc.Encode(c); err != nil {
 			return err
@@ -54,7 +55,8 @@ func GenRandom(out string, seed int64, nspz, nclouds, maxn int) error {
 		if i < 3 {
 			n = i
 		}
-		c := Case{Id: id, Kind: "cloud", Unit: 0, FSplats: []FSplat{}, FRest: []int{0, 0, 9, 24, 45}[rng.Intn(5)], Normal: rng.Intn(3) == 0}
+		c := Case{Id: id, Kind: "cloud", Unit: 0, FSplats: []FSplat{}, FRest: []int{0, 0, 9, 24, 45}[rng.Intn(5)], Normal: rng.Intn(3) == 0,
+			Dl: []int{0, 0, 1, 5, 64, 100003}[rng.Intn(6)]}
 		id++
 		for s := 0; s < n; s++ {
 			fs := FSplat{P: make([]float64, 3), S: make([]float64, 3), C: make([]float64, 3), R: make([]float64, 4)}
